@@ -116,10 +116,10 @@ type Linter struct {
 // The opts parameter is LinterOptions instance which configures behavior of linting.
 func NewLinter(out io.Writer, opts *LinterOptions) (*Linter, error) {
 	level := LogLevelNone
-	if opts.Verbose {
-		level = LogLevelVerbose
-	} else if opts.Debug {
+	if opts.Debug {
 		level = LogLevelDebug
+	} else if opts.Verbose {
+		level = LogLevelVerbose
 	}
 
 	if opts.Color == ColorOptionKindNever {
